@@ -173,13 +173,13 @@ func (e *exec) muxOp(toks []string) string {
 	}
 	var ca, cb net.Conn
 	if argS(toks, "sc") == "1" {
-		p, res := makePair(atoi(argS(toks, "k")), uint32(atoi(argS(toks, "seed"))), false)
+		p, res := makePair(atoi(argS(toks, "k")), uint32(atoi(argS(toks, "seed"))), false, argS(toks, "j") == "1")
 		if p == nil {
 			return "err=handshake-" + res
 		}
 		ca, cb = p.a, p.b
 	} else {
-		a, b, _, _ := duplex(atoi(argS(toks, "k")), uint32(atoi(argS(toks, "seed"))), false)
+		a, b, _, _ := duplex(atoi(argS(toks, "k")), uint32(atoi(argS(toks, "seed"))), false, argS(toks, "j") == "1")
 		ca, cb = a, b
 	}
 	tap := &tapConn{Conn: ca}
@@ -314,7 +314,7 @@ func (e *exec) mrawOp(toks []string) string {
 	if cs == nil || maxpay < 1 {
 		return "bad-op"
 	}
-	a, b, _, _ := duplex(atoi(argS(toks, "k")), uint32(atoi(argS(toks, "seed"))), false)
+	a, b, _, _ := duplex(atoi(argS(toks, "k")), uint32(atoi(argS(toks, "seed"))), false, argS(toks, "j") == "1")
 	rl := newRecvLog()
 	all := append(append([]chanCfg{}, cs...), chanCfg{sentinelCh, 1, 16, 4})
 	mb := tmconn.NewMConnectionWithConfig(b, descs(all), rl.onReceive, rl.onError, mcfg(maxpay, 0))
